@@ -249,6 +249,9 @@ class UDP6EndpointAddress(interfaces.EndpointAddress):
 
     @property
     def is_multicast_locally(self):
+        if self.pktinfo is None:
+            # eg. an address that was already turned into a response address
+            return False
         return ipaddress.ip_address(self._plainaddress_local()).is_multicast
 
     def as_response_address(self):
